@@ -154,3 +154,96 @@ pub fn copy_within_array(a: &mut [u8; 8], src: &[u8]) {
         a[2..2 + n].copy_from_slice(src);
     }
 }
+
+pub fn from_ref(x: u8, out: &mut [u8; 2]) {
+    let s = core::slice::from_ref(&x);
+    out[..1].copy_from_slice(s);
+}
+
+pub fn let_else_get(p: &[u8]) -> u8 {
+    let Some(head) = p.get(..3) else {
+        return 0;
+    };
+    head[0] ^ head[2]
+}
+
+pub fn split_at_mut_copy(a: &mut [u8; 7], id: u32, n: u16) -> usize {
+    let (x, y) = a.split_at_mut(4);
+    x.copy_from_slice(&id.to_be_bytes());
+    y[..2].copy_from_slice(&n.to_be_bytes());
+    6
+}
+
+pub fn vec_get(v: &[u16], i: u8) -> u16 {
+    match v.get(usize::from(i)) {
+        Some(x) => *x,
+        None => 0xFFFF,
+    }
+}
+
+pub fn match_slice_exact(p: &[u8]) -> u8 {
+    match *p {
+        [0, x] | [1, x] => x,
+        [2, _] => 7,
+        _ => 9,
+    }
+}
+
+const TABLE: [u8; 4] = [10, 20, 30, 40];
+
+pub fn const_table(i: u8) -> u8 {
+    TABLE.get(usize::from(i)).copied().unwrap_or(0xFF)
+}
+
+pub fn sum_lens(a: &[u8], c: &[u8]) -> usize {
+    let b: Option<&[u8]> = if c.len() > 2 { Some(c) } else { None };
+    let parts: [&[u8]; 2] = [a, b.unwrap_or_default()];
+    parts.iter().map(|p| p.len()).sum()
+}
+
+pub fn for_array_by_value(a: &[u8; 2], out: &mut [u8; 4]) {
+    let mut off = 0;
+    for part in [&a[..], &a[..1]] {
+        out[off..off + part.len()].copy_from_slice(part);
+        off += part.len();
+    }
+}
+
+pub fn any_ff(p: &[u8; 3]) -> bool {
+    p.iter().any(|b| *b == 0xFF)
+}
+
+pub fn position_of(p: &[u8; 3], x: u8) -> Option<usize> {
+    p.iter().position(|b| *b == x)
+}
+
+pub fn subarray_assign(dst: &mut [u8; 5], code: u8, src: &[u8; 4]) {
+    let [first, rest @ ..] = dst;
+    *first = code;
+    *rest = *src;
+}
+
+pub fn opt_slice_coercion(x: u16) -> usize {
+    let bytes = x.to_be_bytes();
+    let o: Option<&[u8]> = Some(&bytes);
+    o.map_or(0, |s| s.len())
+}
+
+pub fn chunks_zip(dst: &mut [u8; 9], src: &[[u8; 4]]) {
+    let n = src.len();
+    if n > 2 {
+        return;
+    }
+    let (count, body) = dst.split_at_mut(1);
+    count[0] = n as u8;
+    for (chunk, e) in body[..n * 4].chunks_exact_mut(4).zip(src) {
+        chunk.copy_from_slice(e);
+    }
+}
+
+pub fn low_byte_mask(p: &[u8]) -> u8 {
+    if p.len() > 200 {
+        return 0;
+    }
+    ((p.len() + 6) & 0xFF) as u8
+}
